@@ -138,3 +138,28 @@ Definition spec_get (l : list (str * str)) (k : str) : option str :=
   match filter (fun kv => str_eqb (fst kv) k) l with [] => None | kv :: _ => Some (snd kv) end.
 Definition spec_contains (l : list (str * str)) (k : str) : bool :=
   existsb (fun kv => str_eqb (fst kv) k) l.
+
+(* ---------------- what the lossy reader reports for a well-formed document ---------------- *)
+Definition lossy_value (f : field) : str :=
+  f_first f ++ match f_cont f with [] => [] | cs => LF :: join [LF] (map snd cs) end.
+Definition lossy_pair (f : field) : str * str := (f_name f, lossy_value f).
+Definition lossy_item_pairs (it : item) : list (str * str) :=
+  match it with IField f => [lossy_pair f] | IComment _ _ => [] end.
+Definition lossy_block_content (b : block) : list (list (str * str)) :=
+  match b with
+  | BPara f its => [lossy_pair f :: flat_map lossy_item_pairs its]
+  | _ => []
+  end.
+Definition lossy_content (d : doc) : list (list (str * str)) := flat_map lossy_block_content d.
+
+(* the comparison of C06: non-blank lines of a value *)
+Fixpoint split_lf_go (s acc : str) : list str :=
+  match s with
+  | [] => [acc]
+  | c :: r => if (c =? 10)%N then acc :: split_lf_go r [] else split_lf_go r (acc ++ [c])
+  end.
+Definition split_lf (s : str) : list str := split_lf_go s [].
+Definition blank_line (l : str) : bool := forallb is_indent l.
+Definition nb_lines (v : str) : list str := filter (fun l => negb (blank_line l)) (split_lf v).
+Definition nb_doc (d : list (list (str * str))) : list (list (str * list str)) :=
+  map (map (fun kv => (fst kv, nb_lines (snd kv)))) d.
